@@ -324,4 +324,16 @@ def run(tier):
         src = any(1 <= l <= b["arg_count"] for l in locs) or any(1 <= pl["local"] <= b["arg_count"] for pl in places)
         rep.ob("C15.messages|%s" % fn, src and not bad, "%s hands the message list on by move/clone only" % fn.split("::")[-1] if src and not bad else
                "%s rebuilds or reorders the message list (%s)" % (fn.split("::")[-1], bad or "not derived from its input"))
+    # an item with a fault in it can only be reported if the pass that would find the fault walks over it: pass 2's item loop runs for
+    # every segment, of whatever type (the same rule as C10.sequence|every-segment, stated here for the errors it guards)
+    import rules_C10
+    rules_C10.every_segment(P, rep, "C15.reach|pass2-every-segment")
+    # a .message / .warning line is assembled whatever its text says: nothing in front of the grammar may turn a line away because of
+    # characters inside its quoted text (the nesting guard judges only what the grammar's code_part rule hands it: C14's layering rule)
+    import grammar
+    import rules_C14
+    g_, gp_ = grammar.load_checked(P)
+    for pr_ in gp_:
+        rep.unprovable("C15.message|grammar-cross-check", pr_)
+    rules_C14.prefilters(P, g_, rep, prefix="C15.message|quoted-text-not-judged")
     return rep
